@@ -705,6 +705,66 @@ class Program(object):
                         work.append(t)
         return seen
 
+    # ---- set instances: the cleanup/compare slots are per set object -----------------------------
+    def set_instance_fns(self, site):
+        """For a call of the set API, the cleanup/compare functions registered for the set instance
+        named by the first argument, or None when the instance cannot be identified."""
+        ev = site.ev
+        if ev.get('callee') not in ('set_remove', 'set_clear', 'set_insert', 'set_find', 'set_lower') or not ev['args']:
+            return None
+        a0 = ev['args'][0]
+        out = []
+        if is_var(a0) and a0.get('sc') in ('global', 'file_static'):
+            found = False
+            for f in self.fns.values():
+                for s in f.stores():
+                    if s.ev['k'] == 'store' and is_var(s.ev.get('lhs'), a0['name']) and (s.ev.get('rhs') or {}).get('callee') == 'set_alloc':
+                        found = True
+                        for x in s.ev['rhs']['args']:
+                            if x.get('k') == 'func':
+                                t = self.direct_target(f, x['name'])
+                                if t is not None:
+                                    out.append(t)
+            return out if found else None
+        if a0.get('k') == 'un' and a0['op'] == '&':
+            obj = a0['e']
+            key = sx(obj) if is_var(obj) else (obj.get('rec'), obj.get('field')) if obj.get('k') == 'mem' else None
+            if key is None:
+                return None
+            for f in self.fns.values():
+                for s in f.stores():
+                    lhs = s.ev.get('lhs') if s.ev['k'] == 'store' else None
+                    if lhs is not None and lhs.get('k') == 'mem' and lhs['field'] in ('cleanup', 'compare') and s.ev.get('rhs', {}).get('k') == 'func':
+                        b = lhs['base']
+                        bkey = sx(b) if is_var(b) else (b.get('rec'), b.get('field')) if b.get('k') == 'mem' else None
+                        if bkey == key:
+                            t = self.direct_target(f, s.ev['rhs']['name'])
+                            if t is not None:
+                                out.append(t)
+            return out
+        return None
+
+    def closure_sets(self, roots):
+        """May-call closure that resolves set-API calls by set instance instead of descending
+        into the generic set::cleanup / set::compare slots."""
+        seen, work = {}, list(roots)
+        while work:
+            f = work.pop()
+            if f.key in seen:
+                continue
+            seen[f.key] = f
+            for s in f.calls():
+                inst = self.set_instance_fns(s)
+                if inst is not None:
+                    for t in inst:
+                        if t.key not in seen:
+                            work.append(t)
+                    continue
+                for t in self.callees(s, True):
+                    if t.key not in seen:
+                        work.append(t)
+        return seen
+
     def callback_roots(self):
         """Functions handed to external code as callbacks (libevent, atexit, ...)."""
         res = {}
